@@ -1,6 +1,7 @@
 use crate::engine::*;
 use serde_json::Value;
 
+pub mod c01;
 pub mod c02;
 pub mod c03;
 pub mod c04;
@@ -16,6 +17,7 @@ pub mod c17;
 
 pub fn run(ctx: &Ctx) -> Option<PropReport> {
     Some(match ctx.prop.as_str() {
+        "C01" => c01::run(ctx),
         "C02" => c02::run(ctx),
         "C03" => c03::run(ctx),
         "C04" => c04::run(ctx),
@@ -34,6 +36,7 @@ pub fn run(ctx: &Ctx) -> Option<PropReport> {
 
 pub fn replay(ctx: &Ctx, sub: &str, case: &Value) -> Result<(), Fail> {
     match ctx.prop.as_str() {
+        "C01" => c01::replay(ctx, sub, case),
         "C02" => c02::replay(ctx, sub, case),
         "C03" => c03::replay(ctx, sub, case),
         "C04" => c04::replay(ctx, sub, case),
